@@ -4,7 +4,7 @@ from core import World
 from gen import Gen, mode_line, cfg_line
 from suites import gen_history, emit_exec, exp_one_error_no_write, exp_same_fs, run_suite, mutate_call, conflated
 
-LEAN_MODULES = ['GoSnaps.Props.C02', 'GoSnaps.Props.C02World', 'GoSnaps.Props.C13Difflib', 'GoSnaps.Props.C13', 'GoSnaps.Props.Tie.Escape', 'GoSnaps.Props.Tie.Diff', 'GoSnaps.Props.Tie.SnapshotIO', 'GoSnaps.Props.Tie.Snapshot', 'GoSnaps.Props.Tie.Flows', 'GoSnaps.Props.Tie.DiffIO', 'GoSnaps.Props.Tie.EndToEnd', 'GoSnaps.Props.Tie.SingleLine', 'GoSnaps.Props.Tie.SingleLineC02', 'GoSnaps.Props.Tie.DifflibGen', 'GoSnaps.Props.Tie.DifflibGen2', 'GoSnaps.Props.Tie.DifflibGen3']
+LEAN_MODULES = ['GoSnaps.Props.C02', 'GoSnaps.Props.C02World', 'GoSnaps.Props.C13Difflib', 'GoSnaps.Props.C13', 'GoSnaps.Props.Tie.Escape', 'GoSnaps.Props.Tie.Diff', 'GoSnaps.Props.Tie.SnapshotIO', 'GoSnaps.Props.Tie.Snapshot', 'GoSnaps.Props.Tie.Flows', 'GoSnaps.Props.Tie.DiffIO', 'GoSnaps.Props.Tie.EndToEnd', 'GoSnaps.Props.Tie.SingleLine', 'GoSnaps.Props.Tie.SingleLineC02', 'GoSnaps.Props.Tie.DifflibGen', 'GoSnaps.Props.Tie.DifflibGen2', 'GoSnaps.Props.Tie.DifflibGen3', 'GoSnaps.Props.Tie.Wrappers']
 NOUPD = [(False, '', 'none'), (True, 'true', 'none'), (False, 'true', 'false'), (False, 'clean', 'none'), (True, '', 'true'), (False, 'other', 'none')]
 
 
